@@ -52,7 +52,12 @@ def wname(op, ty, var):
 
 def fmt_var(var, lit=None, ty=None):
     f = (lambda k, e: lit(ty, k, e)) if lit else (lambda k, e: str(e))
-    return dict((k, (', '.join(f(k, e) for e in v) if isinstance(v, (list, tuple)) else v)) for k, v in var.items())
+    return dict((k, (', '.join(f(k, e) for e in v) if isinstance(v, (list, tuple)) else (lit(ty, k, v) if lit else v))) for k, v in var.items())
+
+
+def _call2(f, ty, var):
+    import inspect
+    return f(ty, var) if len(inspect.signature(f).parameters) == 2 else f(ty)
 
 
 def wrapper_line(op, ty, var, cfg=None):
@@ -85,14 +90,16 @@ def wrapper_line(op, ty, var, cfg=None):
         elif k == 'u':
             decl.append('uint64_t %s' % nm)
         elif k == 'p':
-            decl.append('const %s* %s' % (op.ptr_type(ty) if hasattr(op, 'ptr_type') and op.ptr_type else ct, nm))
+            decl.append('const %s* %s' % (_call2(op.ptr_type, ty, var) if getattr(op, 'ptr_type', None) else ct, nm))
         elif k == 'P':
-            decl.append('%s* %s' % (op.ptr_type(ty) if hasattr(op, 'ptr_type') and op.ptr_type else ct, nm))
+            decl.append('%s* %s' % (_call2(op.ptr_type, ty, var) if getattr(op, 'ptr_type', None) else ct, nm))
+    fd = dict(T=ct, TN=ty.name, U=UTYPE[ty.bits], IT=ITYPE[ty.bits], ELIST=', '.join('e%d' % i for i in range(nl)))
+    fd.update(fmt_var(var, getattr(op, 'lit', None), ty))
     if op.ret == 'void':
-        expr = op.expr.format(T=ct, TN=ty.name, U=UTYPE[ty.bits], IT=ITYPE[ty.bits], ELIST=', '.join('e%d' % i for i in range(nl)), **fmt_var(var, getattr(op, 'lit', None), ty))
+        expr = op.expr.format(**fd)
         return 'extern "C" void %s(%s) { %s %s; }' % (wname(op, ty, var), ', '.join(decl), ' '.join(body), expr), names
-    rt = {'b': 'R_<%s>' % ct, 'm': 'Q_<%s>' % ct, 's': ct, 'bool': 'bool', 'u64': 'uint64_t', 'int': 'int', 'size': 'size_t'}.get(op.ret) or op.ret.format(T=ct)
-    expr = op.expr.format(T=ct, TN=ty.name, U=UTYPE[ty.bits], IT=ITYPE[ty.bits], ELIST=', '.join('e%d' % i for i in range(nl)), **fmt_var(var, getattr(op, 'lit', None), ty))
+    rt = {'b': 'R_<%s>' % ct, 'm': 'Q_<%s>' % ct, 's': ct, 'bool': 'bool', 'u64': 'uint64_t', 'int': 'int', 'size': 'size_t'}.get(op.ret) or op.ret.format(**fd)
+    expr = op.expr.format(**fd)
     return 'extern "C" %s %s(%s) { %s return %s; }' % (rt, wname(op, ty, var), ', '.join(decl), ' '.join(body), expr), names
 
 
@@ -204,7 +211,7 @@ def analyse_wrapper(mod, cfg, fn, op, ty, var, names):
         in_mem = {}
         for (k, nm) in names:
             if k in ('p', 'P'):
-                in_mem['arg:' + nm] = (op.mem_bits(ty) if getattr(op, 'mem_bits', None) else ty.bits)
+                in_mem['arg:' + nm] = (_call2(op.mem_bits, ty, var) if getattr(op, 'mem_bits', None) else ty.bits)
         ev = lanes.Eval(mod, fn, args, in_mem)
         ev.run()
     except lanes.AssertsFalse as e:
